@@ -110,6 +110,7 @@ type c02WatchChain struct {
 	tick      int
 	last      int
 	sigChn    chan interface{}
+	after     string // answers once the scripted sweeps are used up (while the signature is on its way / being submitted)
 	sent      bool
 	submitted []string
 	cancel    context.CancelFunc
@@ -125,7 +126,7 @@ func (c *c02WatchChain) isExecuted(p *transfer.TransferProposal) (bool, error) {
 	c.last = idx
 	if c.tick >= len(c.script) {
 		c.release()
-		return false, nil
+		return idx < len(c.after) && c.after[idx] == 'e', nil
 	}
 	v := c.script[c.tick]
 	if idx >= len(v) {
@@ -270,7 +271,9 @@ func (c *c02CallClient) CallContract(ctx context.Context, args map[string]interf
 }
 
 func init() {
-	// watchsig <evm|sub> <n> <sweeps '/'-separated, each a word of length n over p|e|x, or -> <gas>
+	// watchsig <evm|sub> <n> <sweeps '/'-separated, each a word of length n over p|e|x, or -> <gas> <after>
+	//   after: a word over p|e (not all e) answered to every lookup once the scripted sweeps are used up, i.e. while the
+	//   signature is on its way and at submission time
 	//   => closed|caller=<nonces>                 the loop ended as "already executed" before any signature
 	//      sub:<nonces>/<gas>/<sig len>|caller=…  what ExecuteProposals received, and the caller's slice afterwards
 	ops["C02.watchsig"] = func(a []string) string {
@@ -279,6 +282,9 @@ func init() {
 		defer cancel()
 		sigChn := make(chan interface{})
 		ch := &c02WatchChain{script: items(a[2], "/"), last: -1, sigChn: sigChn, cancel: cancel}
+		if len(a) > 4 && a[4] != "-" {
+			ch.after = a[4]
+		}
 		ps := c02Members(n)
 		h, cm := c02NewHost("self"), &c02MuteComm{}
 		var err error
@@ -458,6 +464,19 @@ func init() {
 	}
 }
 
+// c02After: statuses at submission time — some members executed meanwhile, never all (the loop must not be able to close)
+func c02After(g *G, n int) string {
+	if n < 2 || g.Intn(2) == 0 {
+		return "-"
+	}
+	w := make([]byte, n)
+	for i := range w {
+		w[i] = "pe"[g.Intn(2)]
+	}
+	w[g.Intn(n)] = 'p'
+	return string(w)
+}
+
 func genC02Seq(g *G) {
 	// watchsig: every script of 0..2 sweeps for batches of 1..3 members (exhaustive), then random longer ones
 	var words func(n int) []string
@@ -475,13 +494,13 @@ func genC02Seq(g *G) {
 	}
 	for _, kind := range []string{"evm", "sub"} {
 		for n := 1; n <= 3; n++ {
-			g.Emit("watchsig", kind, itoa(n), "-", "120")
+			g.Emit("watchsig", kind, itoa(n), "-", "120", "-")
 			ws := words(n)
 			for _, w1 := range ws {
-				g.Emit("watchsig", kind, itoa(n), w1, "120")
+				g.Emit("watchsig", kind, itoa(n), w1, "120", c02After(g, n))
 				if n <= 2 || g.Thorough() {
 					for _, w2 := range ws {
-						g.Emit("watchsig", kind, itoa(n), w1+"/"+w2, "120")
+						g.Emit("watchsig", kind, itoa(n), w1+"/"+w2, "120", c02After(g, n))
 					}
 				}
 			}
@@ -497,7 +516,7 @@ func genC02Seq(g *G) {
 				}
 				sw = append(sw, string(w))
 			}
-			g.Emit("watchsig", kind, itoa(n), strings.Join(sw, "/"), utoa([]uint64{0, 60, 1 << 40, 1<<64 - 1}[g.Intn(4)]))
+			g.Emit("watchsig", kind, itoa(n), strings.Join(sw, "/"), utoa([]uint64{0, 60, 1 << 40, 1<<64 - 1}[g.Intn(4)]), c02After(g, n))
 		}
 	}
 	// execwatch: one delivery split into 1..n batches (cap 100, transfer gas 60 → allowances 60/100/101/160 around the cap)
